@@ -91,6 +91,9 @@ const FILES: &[&str] = &[
     "C:\\app\\dist\\index.js",
     "src\\win\\rel.js",
     "C:\\app/mixed\\style.js",
+    // two names that differ only in letter case (different files on a case-sensitive file system)
+    "/app/src/Settings.js",
+    "/app/src/settings.js",
 ];
 
 fn dir_of(f: &str) -> String {
